@@ -677,7 +677,7 @@ def malform(rng, c, k=None):
 def generate(rng: random.Random, tier: str):
     yield from exhaustive_block(tier)
     yield from fixed_cases()
-    for _ in range(260 if tier == "quick" else 3500):
+    for _ in range(260 if tier == "quick" else 2600):
         yield decorate(rng, rand_doc(rng))
     r0 = random.Random(16)
     for k in MALFORMATIONS:                 # every malformation at least twice, on small documents
@@ -685,7 +685,7 @@ def generate(rng: random.Random, tier: str):
             c = rand_doc(r0, max_frames=3, max_spots=5)
             c["ds"], c["dt"] = r0.random() < 0.4, r0.random() < 0.4
             yield malform(r0, c, k)
-    for _ in range(90 if tier == "quick" else 1200):
+    for _ in range(90 if tier == "quick" else 800):
         c = rand_doc(rng, max_frames=3, max_spots=6)
         c["ds"], c["dt"] = rng.random() < 0.4, rng.random() < 0.4
         c["fmt"] = rng.choice([2, 3])
@@ -810,7 +810,16 @@ def run_impl(c):
             from geff.convert import from_trackmate_xml_to_geff as conv0
 
             (root / "in" / "old.xml").write_text(pre_doc(), encoding="utf-8")
-            conv0(root / "in" / "old.xml", geff_path, zarr_format=c["pre"])
+            try:
+                conv0(root / "in" / "old.xml", geff_path, zarr_format=c["pre"])
+            except Exception:
+                # the converter under test cannot even produce the pre-state: occupy the target with a plain geff instead
+                from geff.core_io import write_arrays
+                from geff_spec import GeffMetadata
+
+                shutil.rmtree(geff_path, ignore_errors=True)
+                write_arrays(geff_path, np.array([70, 71], dtype="uint64"), {}, np.array([[70, 71]], dtype="uint64"), {},
+                             GeffMetadata(directed=True, node_props_metadata={}, edge_props_metadata={}), zarr_format=c["pre"])
         obs["pre_coq"] = c_otree(dump_tree(geff_path, Interner())) if geff_path.exists() else "None"
         before = snapshot_dir(geff_path)
         try:
@@ -1115,6 +1124,15 @@ def oracle(c, o):
     want_axes = [["POSITION_X", "space", su], ["POSITION_Y", "space", su], ["POSITION_Z", "space", su], ["POSITION_T", "time", tu]]
     if [a[:3] for a in g["axes"]] != want_axes:
         return fail(f"axes {[a[:3] for a in g['axes']]}, expected {want_axes}", why="units", part="axes")
+    # a stored feature whose TrackMate dimension is a length / position / time is measured in the model's unit
+    carried = {"spot": {k for i in ids for k in spots[i]["feat"]}, "edge": {k for e in g["edges"] for k in by_pair[tuple(e)]}}
+    for part, decls, meta in (("spot", c["decls"]["spot"], g["nmeta"]), ("edge", c["decls"]["edge"], g["emeta"])):
+        for dc in decls:
+            if dc["feature"] in carried[part] and dc["feature"] in meta and dc.get("dimension") in ("POSITION", "LENGTH", "TIME"):
+                want = tu if dc["dimension"] == "TIME" else su
+                if meta[dc["feature"]].get("unit") != want:
+                    return fail(f"{part} feature {dc['feature']!r} of dimension {dc['dimension']} has unit {meta[dc['feature']].get('unit')!r}, "
+                                f"the model's unit is {want!r}", why="units", part="feature")
     # --- ROIs
     if any(spots[i]["roi"] is not None for i in ids):
         col = np_.get("ROI_coords")
